@@ -312,6 +312,9 @@ pub struct Sim {
     pub history_at: Vec<u64>,
     cur_ch: Option<usize>,
     pub steps: u64,
+    /// steps in a row that did not advance virtual time, and the end of the execution once that is hopeless
+    pub stalled_steps: u64,
+    pub fatal: bool,
     pub clock: SimClock,
     /// oracle switches
     pub check_amp: bool,
@@ -445,6 +448,8 @@ impl Sim {
             history_at: Vec::new(),
             cur_ch: None,
             steps: 0,
+            stalled_steps: 0,
+            fatal: false,
             clock,
             check_amp: true,
             check_mtu: true,
@@ -485,6 +490,10 @@ impl Sim {
     pub fn fail(&mut self, key: &str, what: String) {
         if self.fails.len() < 50 {
             self.fails.push(format!("key={key} t={} {what}", self.now));
+        }
+        if key == "timeout-settle-not-reached" {
+            // the connection will spin at this instant for ever: the execution ends here (the failure is recorded)
+            self.fatal = true;
         }
     }
 
@@ -1232,6 +1241,27 @@ impl Sim {
     /// One scheduling step: deliver, drive every connection, advance time. Returns false when nothing
     /// remains to happen (no datagram on the wire, no timer).
     pub fn step(&mut self, tick: &mut dyn FnMut(&mut Sim)) -> bool {
+        if self.fatal {
+            return false;
+        }
+        let t0 = self.now;
+        let more = self.step_inner(tick);
+        if more && self.now == t0 {
+            self.stalled_steps += 1;
+            if self.stalled_steps > 100_000 {
+                // C20 / C03: 100000 scheduling steps at one instant (datagrams exchanged at zero latency or timers
+                // re-armed at the current instant without end)
+                self.fail("steps-without-time-advance", format!("{} scheduling steps in a row at t={} ns without virtual time advancing", self.stalled_steps, self.now));
+                self.fatal = true;
+                return false;
+            }
+        } else {
+            self.stalled_steps = 0;
+        }
+        more
+    }
+
+    fn step_inner(&mut self, tick: &mut dyn FnMut(&mut Sim)) -> bool {
         self.steps += 1;
         self.clock_sync();
         for node in 0..self.nodes.len() {
